@@ -537,4 +537,40 @@ def makeSkeleton (ds : DSetData) : Outcome (Array Nat Ã— List Nat Ã— List (Nat Ã
   | .err => .err
   | .panic => .panic
 
+/-! ### network_edges -/
+
+/-- `elm_to_index.iter().cloned().max().unwrap_or(0) + 1` : the source vertex of `network_cut`
+    (the sink is `source + 1`) -/
+def skelSource (e2i : Array Nat) : Nat := e2i.foldl max 0 + 1
+
+/-- `xs.map(|&e| elm_to_index[e])` -/
+def mapIdx (a : Array Nat) : List Nat â†’ Outcome (List Nat)
+  | [] => .ok []
+  | e :: rest =>
+    match idxO a e with
+    | .ok x =>
+      (match mapIdx a rest with
+       | .ok xs => .ok (x :: xs)
+       | .err => .err
+       | .panic => .panic)
+    | .err => .err
+    | .panic => .panic
+
+/-- `network_edges(ds, d, edge_mode, elm_to_index, edges, source, sink)`: the skeleton edges, an
+    edge from the source to every vertex of the face of `d` (in edge mode also of the face of
+    `s2 d`), and an edge to the sink from every vertex of the face of `s3 d`.  The two `HashSet`s
+    `v_in`, `v_out` are iterated in an unspecified (per-process random) order: the model lists them
+    ascending; every statement about the network is made for all lists with the same members. -/
+def networkEdges (ds : DSetData) (d : Nat) (edgeMode : Bool) (e2i : Array Nat) (edges : List (Nat Ã— Nat))
+    (source sink : Nat) : Outcome (List (Nat Ã— Nat)) := do
+  let inChambers â†
+    (if edgeMode then (do
+        let d2 â† opx ds 2 d
+        pure (ds.viewPartial.orbit [0, 1] d ++ ds.viewPartial.orbit [0, 1] d2))
+      else pure (ds.viewPartial.orbit [0, 1] d) : Outcome (List Nat))
+  let vIn â† mapIdx e2i inChambers
+  let d3 â† opx ds 3 d
+  let vOut â† mapIdx e2i (ds.viewPartial.orbit [0, 1] d3)
+  pure (edges ++ (View.sortDedup vIn).map (fun v => (source, v)) ++ (View.sortDedup vOut).map (fun v => (v, sink)))
+
 end DSymVerif.Simp
